@@ -5,6 +5,7 @@ import json, os, shutil
 ROOT = os.path.dirname(os.path.dirname(os.path.abspath(__file__)))
 inc = os.path.join(ROOT, "seeded", "_incoming")
 NOTES = {
+ "C07-6": "neutralised by the repair 9a338d6 (the lookup now prunes null coefficients of the query, so a point reached through an un-pruned cancelling subtraction is recognised again): equivalent on the repaired tree; it was caught by C07 quick before the repair",
  "C04-2": "neutralised by the repair ba0f5cf (set_class_constraints now resets list_of_class_psd, so the seeded guard never triggers): equivalent on the repaired tree",
  "C13-3": "does not apply on the repaired tree (32e7309 rewrote the same lines); superseded by the equivalent seed C15-2 produced on the repaired tree",
 }
